@@ -12,11 +12,12 @@ import (
 func init() { registry["C13"] = checkC13 }
 
 func checkC13(c *Ctx, r *Report) {
-	r.Explain = "Decides structural necessary conditions of 'a pulling client's copy matches the user's current access': (R1) a revocation entry is sent only for a document the user can no longer see (UserHasDocAccess false edge) and, when the entry is newer than the client's position, only if the document was in the channel while the user had it (wasDocInChannelPriorToRevocation true edge); every failure of those checks ends the feed with an error entry rather than skipping silently; (R2) revocation feeds are built exactly for the channels RevokedCollectionChannels reports, only when revocations were requested for a user and not in active-only mode, and that computation looks up lost roles through the accessor that still returns deleted roles; (R3) the deleted / revoked / removed indicators reach the replication client one-to-one and revocation entries are marked revoked; (R4) paging of a revocation feed counts only entries actually sent, and resumes after the last entry examined; (R5) grant history (channel and role history on principals) is written only by the rebuild functions. 'A revoked document can no longer be fetched' is C02. Not decided: completeness of revocations and back-fill over arbitrary grant histories, triggered-by resumption arithmetic, interval bookkeeping."
+	r.Explain = "Decides structural necessary conditions of 'a pulling client's copy matches the user's current access': (R1) a revocation entry is sent only for a document the user can no longer see (UserHasDocAccess false edge) and, when the entry is newer than the client's position, only if the document was in the channel while the user had it (wasDocInChannelPriorToRevocation true edge); every failure of those checks ends the feed with an error entry rather than skipping silently; (R2) revocation feeds are built exactly for the channels RevokedCollectionChannels reports, only when revocations were requested for a user and not in active-only mode, and that computation looks up lost roles through the accessor that still returns deleted roles; (R3) the deleted / revoked / removed indicators reach the replication client one-to-one and revocation entries are marked revoked; (R4) paging of a revocation feed counts only entries actually sent, and resumes after the last entry examined; (R5) grant history (channel and role history on principals) is written only by the rebuild functions. 'A revoked document can no longer be fetched' is C02.; (R6) every grant-history scan of RevokedCollectionChannels applies both disjuncts of the function's own resume test. Not decided: completeness of revocations and back-fill over arbitrary grant histories, triggered-by resumption arithmetic, interval bookkeeping."
 	c13R1R4(c, r)
 	c13R2(c, r)
 	c13R3(c, r)
 	c13R5(c, r)
+	c13R6(c, r)
 }
 
 func c13R1R4(c *Ctx, r *Report) {
@@ -480,4 +481,164 @@ func phiFedBy(p *ssa.Phi, v ssa.Value) bool {
 		return false
 	}
 	return walk(p)
+}
+
+// C13-R6: sibling agreement inside RevokedCollectionChannels. The function scans three kinds of grant history (the user's role
+// history, the channel history of a revoked role, the channel history of the user and of the roles still held) with one and the same
+// test, stated in its own comment: an entry counts if it ended after the position the client is resuming from, OR exactly at the
+// sequence that triggered an interrupted revocation back-fill. Every scan must apply both disjuncts; dropping the second from one of
+// them leaves the documents of that kind un-revoked when a client resumes in the middle of a revocation.
+func c13R6(c *Ctx, r *Report) {
+	r.Rule("C13-R6", "E2 pathrules (sibling agreement)", "every history scan in RevokedCollectionChannels tests `entry.EndSeq > checkSeq || entry.EndSeq == triggeredBy`: each EndSeq > … test is followed on its false edge by the == triggeredBy test of the same entry", 3)
+	top := c.Func("(*auth.userImpl).RevokedCollectionChannels")
+	if top == nil || len(top.Params) < 6 {
+		r.Fail("C13-R6", "anchor (*auth.userImpl).RevokedCollectionChannels", "-", "function not found")
+		return
+	}
+	trig := top.Params[len(top.Params)-1]
+	isTrig := func(fn *ssa.Function) func(v ssa.Value) bool {
+		return func(v ssa.Value) bool {
+			v = unwrapLoadFree(v)
+			if v == ssa.Value(trig) {
+				return true
+			}
+			// captured by a closure: a load of the free variable bound to the parameter's cell, or a cell holding the parameter
+			if ad, ok := loadOf(v); ok {
+				for _, st := range storesInto(rootAddr(ad)) {
+					if st.Val == ssa.Value(trig) {
+						return true
+					}
+				}
+				if fv, isFV := ad.(*ssa.FreeVar); isFV {
+					if b := freeVarBinding(fv); b != nil {
+						for _, st := range storesInto(b) {
+							if st.Val == ssa.Value(trig) {
+								return true
+							}
+						}
+					}
+				}
+			}
+			if fv, isFV := v.(*ssa.FreeVar); isFV {
+				if b := freeVarBinding(fv); b == ssa.Value(trig) {
+					return true
+				}
+			}
+			return false
+		}
+	}
+	isEndSeq := func(v ssa.Value) (ssa.Value, bool) {
+		f, b := fieldRead(v)
+		if f != nil && f.Name() == "EndSeq" {
+			return b, true
+		}
+		return nil, false
+	}
+	// hosts: the function, its literals, and helpers extracted from it (called by nothing else) — in a helper the triggering
+	// sequence is the parameter that receives it at the call site
+	trigOf := map[*ssa.Function]ssa.Value{}
+	var hosts []*ssa.Function
+	for _, h := range c.PrivateHelpers(top, 2) {
+		hosts = append(hosts, h)
+		hosts = append(hosts, c15Lits(h)...)
+		if h == top {
+			continue
+		}
+		for _, g := range append([]*ssa.Function{top}, c15Lits(top)...) {
+			for _, call := range c.Calls(g, false, nameIs(c.FuncName(h))) {
+				for j, a := range call.Common().Args {
+					if isTrig(g)(a) && j < len(h.Params) {
+						trigOf[h] = h.Params[j]
+					}
+				}
+			}
+		}
+	}
+	n := 0
+	for _, fn := range hosts {
+		it := isTrig(fn)
+		if tp, ok := trigOf[TopLevel(fn)]; ok {
+			base := it
+			it = func(v ssa.Value) bool {
+				v2 := unwrapLoadFree(v)
+				if v2 == tp {
+					return true
+				}
+				if ad, isLoad := loadOf(v2); isLoad {
+					for _, st := range storesInto(rootAddr(ad)) {
+						if st.Val == tp {
+							return true
+						}
+					}
+				}
+				return base(v)
+			}
+		}
+		k := 0
+		for _, i := range Ifs(fn) {
+			b, ok := i.Cond.(*ssa.BinOp)
+			if !ok || b.Op != token.GTR {
+				continue
+			}
+			entry, isE := isEndSeq(b.X)
+			if !isE {
+				continue
+			}
+			if _, alsoEnd := isEndSeq(b.Y); alsoEnd {
+				continue // comparison of two history entries
+			}
+			if it(b.Y) {
+				continue
+			}
+			// only the scans' "after the resume position" tests: the right-hand side is the diff position (not the role's revocation sequence)
+			if DependsOn(b.Y, func(v ssa.Value) bool { _, isLookup := v.(*ssa.Lookup); return isLookup }) {
+				continue
+			}
+			if DependsOn(b.Y, func(v ssa.Value) bool { _, isNext := v.(*ssa.Next); return isNext }) {
+				continue
+			}
+			n++
+			k++
+			// the false successor must test EndSeq == triggeredBy on the same entry
+			fb := i.Block().Succs[1]
+			ok2 := false
+			if len(fb.Instrs) > 0 {
+				if i2, isIf := fb.Instrs[len(fb.Instrs)-1].(*ssa.If); isIf {
+					if b2, isB := i2.Cond.(*ssa.BinOp); isB && b2.Op == token.EQL {
+						e2, isE2 := isEndSeq(b2.X)
+						if isE2 && sameEntry(e2, entry) && it(b2.Y) {
+							ok2 = true
+						}
+						e3, isE3 := isEndSeq(b2.Y)
+						if isE3 && sameEntry(e3, entry) && it(b2.X) {
+							ok2 = true
+						}
+					}
+				}
+			}
+			r.Check("C13-R6", fmt.Sprintf("fn=%s history-scan #%d accepts=ended-after-resume-position|ended-at-triggering-sequence", c.FuncName(fn), k), c.Pos(b.Pos()), ok2,
+				"both disjuncts are applied", "this history scan only accepts entries that ended after the resume position and not those that ended exactly at the sequence that triggered an interrupted revocation: a client that resumes in the middle of that revocation never receives the remaining removals")
+		}
+	}
+	if n < 3 {
+		r.Fail("C13-R6", "fn=RevokedCollectionChannels history scans", c.Pos(top.Pos()), fmt.Sprintf("found %d history scans, expected the role-history, revoked-role and principal scans", n))
+	}
+}
+
+// sameEntry: two struct bases denote the same history entry (same value, or loads of the same element address).
+func sameEntry(a, b ssa.Value) bool {
+	if a == b {
+		return true
+	}
+	la, oka := loadOf(a)
+	lb, okb := loadOf(b)
+	if oka && okb && la == lb {
+		return true
+	}
+	fa, oka2 := a.(*ssa.FieldAddr)
+	fb, okb2 := b.(*ssa.FieldAddr)
+	if oka2 && okb2 && fa.X == fb.X && fa.Field == fb.Field {
+		return true
+	}
+	return false
 }
